@@ -223,7 +223,8 @@ func vStrs2(v interface{}) []string {
 
 var vHostText = map[string]string{"exact": "example.com", "sub": "app.example.com", "subsub": "a.b.example.com",
 	"lookalike_prefix": "evilexample.com", "lookalike_suffix": "example.com.evil.net", "foreign": "evil.net",
-	"trailingdot": "example.com.", "upper": "APP.EXAMPLE.COM", "foreign_sub_named_like": "example.comevil.net"}
+	"trailingdot": "example.com.", "upper": "APP.EXAMPLE.COM", "foreign_sub_named_like": "example.comevil.net",
+	"localhost_sub": "localhost.example.com"}
 
 func vRenderURL(u map[string]interface{}, originOnly bool) string {
 	scheme := map[string]string{"https": "https://", "http": "http://", "HTTPS": "HTTPS://", "javascript": "javascript://",
@@ -242,6 +243,8 @@ func vRenderURL(u map[string]interface{}, originOnly bool) string {
 		return scheme + host + "@evil.net" + port + path + query
 	case "userinfo_pw":
 		return scheme + host + ":pw@evil.net" + port + path + query
+	case "userinfo_encslash":
+		return scheme + host + "%2F@evil.net" + port + path + query
 	case "fragment_at":
 		return scheme + "evil.net" + port + "#@" + host + path + query
 	case "backslash_at":
@@ -260,6 +263,7 @@ func runC13(t *testing.T, cases []map[string]interface{}, ev *vEvents) {
 		{ClientID: "both", ClientSecret: "s", AllowedRedirectDomains: []string{"example.com"}, AllowedRedirectURLRE: pats},
 		{ClientID: "neither", ClientSecret: "s"},
 		{ClientID: "loose", ClientSecret: "s", AllowedRedirectURLRE: []string{`^.*$`}},
+		{ClientID: "prefixpat", ClientSecret: "s", AllowedRedirectURLRE: []string{`^https://([a-z.]+\.)?example\.com/`}},
 	}
 	cookie := w.mintCookie("alice", AuthTypePassword, 0)
 	for i, c := range cases {
